@@ -979,6 +979,26 @@ pub fn exec_wop(world: &mut World, op: &WOp, u: u32)
             let after = world.get_entity(e).is_ok();
             log(Ev::RcScratch { uid: u, mid, after });
         }
+        WOp::ReactorBulk(n, mode) =>
+        {
+            let scratch = world.spawn_empty().id();
+            let scs: Vec<SystemCommand> = (0..*n).map(|_| world.spawn_system_command(|| {})).collect();
+            if mode % 2 == 0
+            {
+                world.react(|rc| { for sc in &scs { rc.with(entity_event::<X>(scratch), *sc, ReactorMode::Cleanup); } });
+                world.despawn(scratch);
+            }
+            else
+            {
+                let tokens: Vec<RevokeToken> = world.react(|rc| scs.iter().filter_map(|sc| rc.with(entity_event::<X>(scratch), *sc, ReactorMode::Revokable)).collect());
+                world.react(|rc| { for t in tokens { rc.revoke(t); } });
+            }
+            garbage_collect_entities(world);
+            world.flush();
+            let leaked = scs.iter().filter(|sc| world.get_entity(***sc).is_ok()).count() as u32;
+            if world.get_entity(scratch).is_ok() { world.despawn(scratch); }
+            log(Ev::ReactorBulk { uid: u, n: *n as u32, leaked });
+        }
         WOp::DropInstSig(i) => { let sig = world.resource_mut::<H>().inst_sigs.get_mut(*i as usize).and_then(|s| s.take()); drop(sig); }
         WOp::SysEvent(i, p) =>
         {
@@ -1314,6 +1334,7 @@ fn runner_hook(ev: bevy_cobweb::verif::RunnerEv)
         Discard(e) => (obs::RK_DISCARD, e),
         RootExit(e) => (obs::RK_ROOT_EXIT, e),
         Exit(e) => (obs::RK_EXIT, e),
+        GcTake(e) => { log(Ev::GcTake(e.to_bits())); return; }
     };
     log(Ev::Runner(k, e.to_bits()));
 }
